@@ -1,5 +1,5 @@
 CONSTANTS
-  Acc = {"a", "b", "c"} Targets = {"a", "b", "c", "n1", "nx"} NameSet = {"n1"} Contents = {"c1", "c2"} MAXT = 2 MaxSent = 3
+  Acc = {"a", "b", "c"} Targets = {"a", "b", "c", "n1", "nx"} NameSet = {"n1"} Contents = {"c1", "c2"} MAXT = 2 MaxSent = 2
   FIX = {"blockentry", "overwrite"}
 INIT Init
 NEXT Next
